@@ -98,6 +98,7 @@ class MarginRule(cssrule.CSSRule):
 
     def _setMargin(self, margin):
         """Check if new keyword fits the rule it is used for."""
+        self._checkReadonly()
         n = self._normalize(margin)
 
         if n not in MarginRule.margins:
@@ -182,8 +183,10 @@ class MarginRule(cssrule.CSSRule):
         ok, seq, store, unused = ProdParser().parse(cssText, 'MarginRule', prods)
 
         if ok:
-            # TODO: use seq for serializing instead of fixed stuff?
-            self._setSeq(seq)
+            # new style, parsed before anything is changed as this may raise
+            style = CSSStyleDeclaration(parentRule=self)
+            if 'styletokens' in store:
+                style.cssText = store['styletokens']
 
             if 'margin' in store:
                 # may raise:
@@ -194,12 +197,9 @@ class MarginRule(cssrule.CSSRule):
                     error=xml.dom.InvalidModificationErr,
                 )
 
-            # new empty style
-            self.style = CSSStyleDeclaration(parentRule=self)
-
-            if 'styletokens' in store:
-                # may raise:
-                self.style.cssText = store['styletokens']
+            # TODO: use seq for serializing instead of fixed stuff?
+            self._setSeq(seq)
+            self.style = style
 
     cssText = property(
         fget=_getCssText,
